@@ -359,6 +359,9 @@ def _run_unit_once(unit_path, repo="/repo", tier="quick", seed=0, keep=False, ex
                     if not sp["is_primary"] or clause is None:
                         clause = org
                         clause_tag = org[3]
+                if org and org[0] == "ins" and org[2] and str(org[2]).startswith("proof:") and len(org) > 3 and org[3] and sp["is_primary"]:
+                    # a proof hint that serves one property only (`@proof ... tags=C05`): its failure is not an alarm of the others
+                    clause_tag = clause_tag or org[3]
                 if sp["is_primary"] and prim is None:
                     prim = sp
             if prim is None:
